@@ -190,10 +190,13 @@ Stuck   == ~AllDone /\ \A t \in Threads : ~Enabled(t)
 
 Terminated == (AllDone \/ panicked) /\ UNCHANGED vars
 
+\* the initial state for configuration c (also used by the trace specification, which takes c from the recorded run)
+StartStack(c) == [t \in Threads |-> IF c.loads[t] = <<>> THEN <<>> ELSE <<NewFrame(c.loads[t][1])>>]
+StartNxt(c)   == [t \in Threads |-> IF c.loads[t] = <<>> THEN 0 ELSE 1]
 Init ==
   /\ conf \in [deps : DepsOpts, loads : LoadsOpts, shared : SharedOpts, cacheOn : CacheOpts]
-  /\ stack = [t \in Threads |-> IF Loads[t] = <<>> THEN <<>> ELSE <<NewFrame(Loads[t][1])>>]
-  /\ nxt = [t \in Threads |-> IF Loads[t] = <<>> THEN 0 ELSE 1]
+  /\ stack = StartStack(conf)
+  /\ nxt = StartNxt(conf)
   /\ chain = [c \in ChainIds |-> <<>>]
   /\ cache = [k \in Keys |-> "absent"]
   /\ results = [t \in Threads |-> <<>>]
